@@ -270,3 +270,6 @@ impl GetType for FilterValueAst {
         self.op.get_type()
     }
 }
+
+#[cfg(kani)]
+pub(crate) mod verif_kani;
